@@ -131,6 +131,10 @@ impl Network {
     /// There should only ever be one Network instance instantiated. Do it early
     /// and then pass it around by-ref.
     pub fn acquire(cfg: &PartialConfig) -> Option<Self> {
+        #[cfg(all(test, cargo_vet_verif))]
+        if let Some(network) = verif_hook::take() {
+            return Some(network);
+        }
         if cfg.cli.frozen {
             None
         } else {
@@ -297,6 +301,15 @@ impl Network {
 
         Ok(Response::Real(res, permit))
     }
+}
+
+#[cfg(all(test, cargo_vet_verif))]
+pub(crate) mod verif_hook {
+    use super::Network;
+    use std::cell::RefCell;
+    thread_local! { static NEXT: RefCell<Vec<Network>> = const { RefCell::new(Vec::new()) }; }
+    pub(crate) fn inject(n: Network) { NEXT.with(|s| s.borrow_mut().push(n)); }
+    pub(crate) fn take() -> Option<Network> { NEXT.with(|s| s.borrow_mut().pop()) }
 }
 
 #[cfg(test)]
